@@ -14,7 +14,7 @@ RULE = ("case = (class, non-default constructor options, get_config before/"
         "each of the 14 classes every single non-default option value on top of "
         "every alpha kind, plus a greedy pairwise-covering set of admissible "
         "option combinations (thorough: plus the full admissible product of every "
-        "class with <= 1100 configurations); "
+        "class with <= 1600 configurations); "
         "random part: Hypothesis draws every option independently plus a probe "
         "tensor. Every case is rebuilt through 4 routes and original and "
         "rebuilt quantizers are called on every probe under learning phase 0 "
@@ -382,7 +382,7 @@ def run(ctx):
              nontrivial=bool(case["kw"]) and st.get("orig_ok", False))
     return [(sc, sig, d) for sc, sig, d, _ in fails]
 
-  n = (480 if ctx.quick else 8000) // ctx.n + 1
+  n = (480 if ctx.quick else 16000) // ctx.n + 1
   core.hyp_run(ctx, case_st(), orc, n, name="c09")
 
 
